@@ -6,6 +6,32 @@ import os
 ROOT = os.path.dirname(os.path.dirname(os.path.abspath(__file__)))
 
 CHECKS = {
+    "C06": {
+        "text": "Proof (Coq, closed under the global context) on a model of the sync planner: no upload of a backup the cloud "
+                "holds; a deletion implies an error-free run, the wiped-local safeguard, a cloud group outside the window; the "
+                "window is exactly the groups with fewer than max non-empty groups newer than them; after an error-free run the "
+                "cloud holds every local backup of every window group; a second run plans nothing. Tied to the code by running "
+                "the real sync_backups (real Storage type, real local directories, mock cloud provider) against the extracted "
+                "model exhaustively over a 3-group universe with faults, plus second runs; the property itself is re-evaluated "
+                "on the implementation's action list by an independent checker.",
+        "note": "Names are numbers in the model (order-isomorphic to date strings). Listing-level inputs (temporaries, unexpected "
+                "entries) enter through the ok flag; the end-to-end path through a provider emulator is not built yet. gpg is a "
+                "pass-through stub in this check.",
+        "technique": "Coq proofs over sorted association lists + exhaustive differential correspondence against the real planner",
+        "design": "7/C06",
+    },
+    "C10": {
+        "text": "Proof (Coq, closed under the global context): the one-line-per-file manifest codec round-trips for every "
+                "well-formed item (paths with spaces, negative mtimes, u64/i128 ranges) and whole manifests through the "
+                "BufRead::lines model; the encoding is injective. Tied to the code by comparing the real MetadataWriter / "
+                "MetadataReader (through zstd) with the extracted model on generated items and mutated lines, and by reading the "
+                "writer's output with an independent parser of the documented format.",
+        "note": "Partial: tar/zstd decodability with standard tools, entry/line alignment, unique-prefix hashes and storage "
+                "modes are observed at storage level (real vsb runs decoded independently), not proved; UTF-8 validity of lines "
+                "is outside the byte-level model.",
+        "technique": "Coq round-trip proofs for the codec + differential correspondence with the real reader/writer",
+        "design": "7/C10",
+    },
     "C14": {
         "text": "Proof (Coq, closed under the global context): the verdict of a rule list is that of the first rule whose glob "
                 "matches, allow if none; on every fault-free tree and every filter a path is archived iff it exists and every "
